@@ -343,3 +343,99 @@ def propagate(trees):
                 ast.fix_missing_locations(tree)
                 done[m] = done.get(m, 0) + ft.count
     return done
+
+
+# ---------------------------------------------------------------------------
+# keyword arguments -> positional, literal string methods folded
+# ---------------------------------------------------------------------------
+_STDLIB_KW = {
+    # method / constructor name -> parameter names in positional order (after self); only unambiguous names
+    "wait": ("timeout",), "put": ("item", "block", "timeout"), "put_nowait": ("item",), "Queue": ("maxsize",),
+    "getheader": ("name", "default"), "putheader": ("header", "value"), "putrequest": ("method", "url"),
+    "getLogger": ("name",), "Thread": None, "urlparse": ("urlstring",),
+    "_Method": ("send", "name"),        # inherits xmlrpc.client._Method.__init__(self, send, name)
+}
+_FOLDABLE_STR = ("lower", "upper", "strip", "lstrip", "rstrip", "title", "capitalize", "casefold", "swapcase")
+
+
+def _package_signatures(trees):
+    """function / method name -> positional parameter names (self / cls dropped), when the name has one definition in the package
+    (or all its definitions agree)"""
+    sigs = {}
+    for t in trees.values():
+        for fn in [n for n in ast.walk(t) if isinstance(n, ast.FunctionDef)]:
+            a = fn.args
+            if a.vararg or a.kwarg or a.posonlyargs:
+                params = None
+            else:
+                params = tuple(x.arg for x in a.args)
+                if params[:1] in (("self",), ("cls",)):
+                    params = params[1:]
+            sigs.setdefault(fn.name, set()).add(params)
+    for t in trees.values():
+        for cls in [n for n in ast.walk(t) if isinstance(n, ast.ClassDef)]:
+            init = [m for m in cls.body if isinstance(m, ast.FunctionDef) and m.name == "__init__"]
+            if init:
+                a = init[0].args
+                if not (a.vararg or a.kwarg or a.posonlyargs):
+                    sigs.setdefault(cls.name, set()).add(tuple(x.arg for x in a.args)[1:])
+                else:
+                    sigs.setdefault(cls.name, set()).add(None)
+    return dict((k, next(iter(v))) for k, v in sigs.items() if len(v) == 1 and next(iter(v)) is not None)
+
+
+class _KwToPos(ast.NodeTransformer):
+    """f(a, k1=x, k2=y) -> f(a, x, y) when k1, k2 are the next positional parameters of f (no gap), for package functions /
+    methods / constructors with a unique signature and a few standard-library calls; `"Lit".lower()` -> "lit"."""
+
+    def __init__(self, sigs):
+        self.sigs = sigs
+        self.count = 0
+
+    def visit_Call(self, node):
+        self.generic_visit(node)
+        f = node.func
+        if isinstance(f, ast.Attribute) and isinstance(f.value, ast.Constant) and isinstance(f.value.value, str) and f.attr in _FOLDABLE_STR \
+                and not node.args and not node.keywords:
+            self.count += 1
+            return ast.copy_location(ast.Constant(value=getattr(f.value.value, f.attr)()), node)
+        if not node.keywords or any(k.arg is None for k in node.keywords) or any(isinstance(a, ast.Starred) for a in node.args):
+            return node
+        name = f.id if isinstance(f, ast.Name) else f.attr if isinstance(f, ast.Attribute) else None
+        params = self.sigs.get(name)
+        explicit_self = False
+        if params is None:
+            params = _STDLIB_KW.get(name)
+        elif isinstance(f, ast.Attribute) and f.attr == "__init__":
+            explicit_self = True        # Base.__init__(self, ...)
+        if not params:
+            return node
+        npos = len(node.args) - (1 if explicit_self else 0)
+        if npos < 0:
+            return node
+        kws = dict((k.arg, k.value) for k in node.keywords)
+        new_args = list(node.args)
+        i = npos
+        while i < len(params) and params[i] in kws:
+            new_args.append(kws.pop(params[i]))
+            i += 1
+        if len(new_args) == len(node.args):
+            return node
+        if any(k in params[:i] for k in kws):
+            return node          # a keyword names a parameter already given positionally: leave the (erroneous) call alone
+        node.args = new_args
+        node.keywords = [k for k in node.keywords if k.arg in kws]
+        self.count += 1
+        return node
+
+
+def canonical_calls(trees):
+    sigs = _package_signatures(trees)
+    done = {}
+    for m, t in trees.items():
+        tr = _KwToPos(sigs)
+        tr.visit(t)
+        if tr.count:
+            ast.fix_missing_locations(t)
+            done[m] = tr.count
+    return done
